@@ -244,14 +244,14 @@ pub fn c03_judge(c: &C03Case, obs: &mut Obs) -> Result<(), String> {
         if nontrivial || matches!(spec, TimeSpec::Boundary { .. }) {
             obs.nontrivial = true;
         }
-        // the same through Timeline::update on a linear 0 -> 1 probe: value == position (the
-        // interpolation of 0 and 1 is exact)
+        // the same through Timeline::update on a linear 0 -> 1 probe (the interpolation of 0 and 1 is
+        // exact, so the value IS the position the timeline used): it must satisfy the same oracle.
+        // It need not be bit-identical to TimeScale::get_position - a timeline may locate its position
+        // more accurately than the stand-alone time scale reports it.
         let mut target = P::default();
         target.a = -7.0;
         probe.update(&mut target, t);
-        if target.a.to_bits() != got.pos.to_bits() && !(target.a == 0.0 && got.pos == 0.0) {
-            return Err(format!("t={t:?}: Timeline::update of a linear 0->1 probe gives {} but the time scale position is {} ({:?})", target.a, got.pos, tm));
-        }
+        judge_position(&tm, t, Got { kind: got.kind, pos: target.a }).map_err(|e| format!("through Timeline::update of a linear 0->1 probe (value {} where TimeScale::get_position reports {}): {e} [timing {:?}, spec {:?}]", target.a, got.pos, tm, spec))?;
         // metamorphic, implementation only, on exact grids: periodicity and mirror symmetry
         if let Phase::Active { cycle, .. } = ph {
             let c64 = tm.cycle as f64;
